@@ -115,7 +115,7 @@ def run_group(group, paths, tier):
         # deeper bounds inside the harnesses (buffer sizes, symbolic payload pattern) and more room
         env["VERIF_THOROUGH"] = "1"
         group = dict(group)
-        group["timeout_s"] = int(group.get("timeout_s", 300) * 3)
+        group["timeout_s"] = int(group.get("timeout_s", 300) * (1 if group.get("best_effort") else 3))
         group["mem_gb"] = min(40, group.get("mem_gb", 12) * 1.5)
     env.update(group.get("env", {}))
     cmd = kani_cmd(group, paths, tdir, export)
